@@ -22,7 +22,7 @@ def run_step(step, work, tier, seed):
     rep = {"id": step["id"], "kind": step["kind"], "status": "error", "msg": ""}
     if step["kind"] == "script":
         # supporting static fact computed by a script over /repo's text (exit 0 ok, 1 a named fact fails, else tool error)
-        cmd = ["python3", os.path.join(VERIF, step["src"])]
+        cmd = ["python3", os.path.join(VERIF, step["src"])] + step.get("args", [])
         rc, out = sh(cmd, timeout=step.get("timeout", 600))
         rep["seconds"] = round(time.time() - t0, 1); rep["output_tail"] = out[-1500:]; rep["cmd"] = " ".join(cmd)
         for line in out.splitlines():
